@@ -208,13 +208,41 @@ def join(a, b):
         return ("int", None)
     if ka == "coll":
         return ("coll", join(a[1], b[1]), join(a[2], b[2]), a[3] | b[3])
+    if ka == "iter":
+        t = join_tmpl(a[1], b[1])
+        return TOP if t is None else ("iter", t)
     if ka == "shapefacts":
         return ("shapefacts", a[1] & b[1])
-    if ka == "iter" or ka == "obj" or ka == "bytes" or ka == "fnref":
+    if ka == "obj" or ka == "bytes" or ka == "fnref":
         return TOP
     if ka == "fmtarg":
         return ("fmtarg", join(a[1], b[1]))
     return TOP
+
+
+def join_tmpl(x, y):
+    """join of two iterator templates of the same shape (role sets are united, element values joined)"""
+    if x == y:
+        return x
+    if not (isinstance(x, tuple) and isinstance(y, tuple)) or len(x) != len(y) or x[0] != y[0]:
+        return None
+    out = [x[0]]
+    for p, q in zip(x[1:], y[1:]):
+        if p == q:
+            out.append(p)
+        elif isinstance(p, frozenset) and isinstance(q, frozenset):
+            out.append(p | q)
+        elif isinstance(p, tuple) and isinstance(q, tuple) and p and q and isinstance(p[0], str) and p[0] == q[0] and \
+                p[0] in ("av", "nbr", "enum", "filter", "map", "filter_map", "pairs", "jobs"):
+            r = join_tmpl(p, q)
+            if r is None:
+                return None
+            out.append(r)
+        elif (p is None or (isinstance(p, tuple) and p and isinstance(p[0], str))) and (q is None or (isinstance(q, tuple) and q and isinstance(q[0], str))):
+            out.append(join(p, q))
+        else:
+            return None
+    return tuple(out)
 
 
 def leq(a, b):
